@@ -142,14 +142,14 @@ BEFORE = {
     'S4-C04': "exit 2 in C01/C04/C06/C12/C17 (the truncation wrapper lost the block structure of flat arrays; zeros_like(..).ravel() lost the all-zero base); fixed, and C04.S9 added (sources enter exactly)",
     'S4-C05': "no check reported it: scalars taken from integer face arrays lost their integer kind, so cellsize was modelled as float; face atoms are integer-valued in int-dtype worlds now",
     'S4-C06': "exit 2 (np.stack outside the subset) and `A[[0,-1],:] += v` was modelled as a store into a temporary; np.stack modelled, augmented assignment with an advanced key goes through __setitem__ (last index wins)",
-    'S4-C08': "exit 2 in ten checks (np.pad of an n-D array); modelled (keeps the dtype), reported by the integer-dtype pass of C03",
+    'S4-C08': "exit 2 in ten checks (np.pad of an n-D array); modelled (keeps the dtype), reported by the integer-dtype pass of C03 - and, since round 9, by C08 / C17 through the lemma group INTBC",
     'S4-C17': "as S4-C08",
     'S4-C09': "no check reported it; C09.P8u added (update_value / value setter leave no shared storage)",
     'S4-C12': "no check reported it: the symbolic RHS was not a storage object and reshape results were not views; reshape/ravel results now share storage with their source for effect tracking, C12.T3 / C01.R8 cover the RHS vector",
     'S4-C16': "exit 2 (np.squeeze outside the subset); modelled; C16.L4 gets singleton-axis shapes, C16.L9 the documented array forms on meshes with one cell along some axes",
     'S5-C08': "C08 silent (reported by C03.B3 only); C08.A1 relabels the axes under single-flag periodic configurations too",
     'S5-C17': "C17 silent (reported by C05.E3u/E5u and C16.L8f); C17.H3 now requires that with a separate direction field no sign test looks at the coefficient field",
-    'S5-C03': "no check reported it (C09.P5 only entered apply_BCs with both flags raised); P5 now covers every flag valuation with a stale cache",
+    'S5-C03': "no check reported it (C09.P5 only entered apply_BCs with both flags raised); P5 now covers every flag valuation with a stale cache; since round 6 C03 / C12 re-decide the protocol lemmas",
     'S5-C12': "as S5-C03 (same change)",
     'S5-C09': "no check reported it (C09.P1 only switched periodic on); P1 now also switches it off",
     'S5-C15': "no check reported it (C15 ran every builder on clean variables only); Z1 dirty-argument pass added",
@@ -189,6 +189,10 @@ BEFORE = {
     'S9-C14': "no check reported it (deep_copy ignored a user-defined __deepcopy__); __deepcopy__ / copy.copy / setattr modelled, reported by C14.O4",
     'S9-C15': "exit 2 (functools.cached_property unmodelled); modelled, reported by C15.Z6",
     'S9-C16': "C16 silent (L3 switched the flag on with True only); L3 also uses a truthy non-bool through the public setter",
+    'S4-C02': "reported by C05 / C07 / C15 only until round 9; C02 re-decides the purity rules C15.Z1 / Z6 (lemma group PURITY) now",
+    'S4-C07': "reported by C04.S8 / C09.P1 only until round 6; C07 re-decides the protocol lemmas now",
+    'S5-C01': "reported by C03.B3 / C07.M3 / C08.A1 only until round 9; C01 re-decides C03.B3 (lemma group PERIODIC) now",
+    'S5-C04': "reported by C03.B3 only until round 9; C04 re-decides C03.B3 (lemma group PERIODIC) now",
     'S-C04': "C04 silent in round 1 (caught by C09 only); C04.S8 added",
     'S-C15': "C05 exit 2 in round 1 (case-split budget); recursive case split",
 }
